@@ -17,34 +17,37 @@ NoCfg == [k |-> KMask, run |-> 0, gc |-> <<>>, motifs |-> {}]
 BitSeqs == UNION {[1..n -> {0, 1}] : n \in 0..MaxBits}
 MKey(m) == Cardinality(m) + 3 * FoldSet(LAMBDA x, a : a + x, 0, m)
 Slot == IF MaskMod <= 1 THEN 0 ELSE atoi(IOEnv.VERIF_SLOT) % MaskMod
-VARIABLES src, cfg, t, ph, mask, ret, start, msg, mode, e
-vars == <<src, cfg, t, ph, mask, ret, start, msg, mode, e>>
+VARIABLES src, cfg, t, ph, mask, ret, start, msg, mode, e, tk       \* tk: "id" = no digit shuffling, "mix" = a shuffle table
+vars == <<src, cfg, t, ph, mask, ret, start, msg, mode, e, tk>>
 KK == cfg.k
 N == 4^KK
 Init == /\ \/ (src = "cfg" /\ cfg \in {c \in Cfgs : CtorAccepts(c)} /\ mask = {})
            \/ (src = "mask" /\ MaskMod > 0 /\ cfg = NoCfg /\ mask \in {m \in SUBSET (0..(4^KMask - 1)) : MKey(m) % MaskMod = Slot})
         /\ t \in 1..4 /\ ph = "find"
-        /\ ret = {} /\ start = 0 /\ msg = <<>> /\ mode = "normal" /\ e = EncInit(0, <<>>)
+        /\ ret = {} /\ start = 0 /\ msg = <<>> /\ mode = "normal" /\ e = EncInit(0, <<>>) /\ tk = "id"
 Find == /\ ph = "find"
         /\ mask' = (IF src = "cfg" THEN FindVertices(cfg) ELSE mask)
         /\ ph' = (IF mask' = {} THEN "novertex" ELSE "gen")
-        /\ UNCHANGED <<src, cfg, t, ret, start, msg, mode, e>>
+        /\ UNCHANGED <<src, cfg, t, ret, start, msg, mode, e, tk>>
 Gen == /\ ph = "gen"
        /\ ret' = CodingSet(N, mask, t)
        /\ ph' = (IF ret' = {} THEN "nograph" ELSE "pick")
-       /\ UNCHANGED <<src, cfg, t, mask, start, msg, mode, e>>
+       /\ UNCHANGED <<src, cfg, t, mask, start, msg, mode, e, tk>>
 Live == LiveOfSet(N, ret)
 IdTbl == [u \in 0..(N - 1) |-> Ident]
+MixTbl == [u \in 0..(N - 1) |-> IF u % 2 = 0 THEN <<1, 3, 0, 2>> ELSE <<3, 0, 2, 1>>]
+Tbl == IF tk = "id" THEN IdTbl ELSE MixTbl
 Pick == /\ ph = "pick"
-        /\ \E s \in ret, m \in BitSeqs, md \in Modes :
+        /\ \E s \in ret, m \in BitSeqs, md \in Modes, k2 \in {"id", "mix"} :
              /\ (md = "fast" => \A u \in ret : Cardinality(Live[u]) # 3)
-             /\ start' = s /\ msg' = m /\ mode' = md /\ e' = EncInit(s, m)
+             /\ (k2 = "mix" => Len(m) = MaxBits)              \* shuffled digits on the longest messages only (keeps the scope affordable)
+             /\ start' = s /\ msg' = m /\ mode' = md /\ e' = EncInit(s, m) /\ tk' = k2
         /\ ph' = "enc"
         /\ UNCHANGED <<src, cfg, t, mask, ret>>
-Enc == /\ ph = "enc" /\ e.out = "run" /\ e' = EncStep(Live, N, IdTbl, msg, mode, e)
-       /\ UNCHANGED <<src, cfg, t, ph, mask, ret, start, msg, mode>>
+Enc == /\ ph = "enc" /\ e.out = "run" /\ e' = EncStep(Live, N, Tbl, msg, mode, e)
+       /\ UNCHANGED <<src, cfg, t, ph, mask, ret, start, msg, mode, tk>>
 EncEnd == /\ ph = "enc" /\ e.out # "run" /\ ph' = (IF e.out = "ok" THEN "done" ELSE "encfail")
-          /\ UNCHANGED <<src, cfg, t, mask, ret, start, msg, mode, e>>
+          /\ UNCHANGED <<src, cfg, t, mask, ret, start, msg, mode, e, tk>>
 Next == Find \/ Gen \/ Pick \/ Enc \/ EncEnd
 Spec == Init /\ [][Next]_vars
 FairSpec == Spec /\ WF_vars(Next)
@@ -68,15 +71,15 @@ LastIsBranching == (ph = "done" /\ e.strand # <<>>) => DegreesAlong(Live, N, sta
 M == BitsVal(msg)
 TightNormal == (ph = "done" /\ mode = "normal") =>
                   /\ (e.strand = <<>> <=> M = 0)
-                  /\ (e.strand # <<>> => RadixProduct(DigitsAlong(Live, N, IdTbl, start, SubSeq(e.strand, 1, Len(e.strand) - 1))) <= M)
+                  /\ (e.strand # <<>> => RadixProduct(DigitsAlong(Live, N, Tbl, start, SubSeq(e.strand, 1, Len(e.strand) - 1))) <= M)
                   /\ (t >= 2 => Len(e.strand) <= Len(msg))
                   /\ ((t = 4 \/ \A u \in ret : Cardinality(Live[u]) = 4) => Len(e.strand) <= (Len(msg) + 1) \div 2)
 TightFast == (ph = "done" /\ mode = "fast") =>
-                LET b == Len(FastBitsAlong(Live, N, IdTbl, start, e.strand)) IN b \in {Len(msg), Len(msg) + 1}
+                LET b == Len(FastBitsAlong(Live, N, Tbl, start, e.strand)) IN b \in {Len(msg), Len(msg) + 1}
 Witness == ~(ph = "done" /\ t = 1 /\ Len(e.strand) > Len(msg) /\ mode = "normal" /\ Len(msg) >= 2)      \* an information-free step was taken
 Emit == (EmitOn /\ ph = "done") =>
           PrintT(ToJson([src |-> src, cfg |-> [k |-> cfg.k, run |-> cfg.run, gc |-> cfg.gc, motifs |-> SetToSeq(cfg.motifs)],
-                         t |-> t, mask |-> SetToSortSeq(mask, <), ret |-> SetToSortSeq(ret, <), start |-> start, msg |-> msg, mode |-> mode,
+                         t |-> t, mask |-> SetToSortSeq(mask, <), ret |-> SetToSortSeq(ret, <), start |-> start, msg |-> msg, mode |-> mode, tk |-> tk,
                          strand |-> e.strand, ticks |-> e.ticks, bound |-> Len(msg) * Cardinality(ret),
                          decidable |-> WindowDecidable(cfg), wstrand |-> (src = "mask" \/ Whole(cfg, e.strand)),
                          wfull |-> (src = "mask" \/ Whole(cfg, Full))]))
